@@ -54,3 +54,41 @@ package db19
 //@   requires ts != nil && 0 <= i && i < len(ts.Schema.Indexes)
 //@   ghost k string = key
 //@   ensures! output_blocked_without_target: len(ts.Schema.Indexes[i].Fk.Table) > 0 ==> (len(k) == 0 || fkTgtExists(ts.Schema.Indexes[i].Fk.Table, ts.Schema.Indexes[i].Fk.IIndex))
+
+//@ property C19
+// ---- persisted states: as-of, previous, next ------------------------------------------------------
+// rsT/rsSchema/rsInfo name what readState returns for a given offset of a given store (the store is
+// append-only, so this is a function of the offset); rsT == 0 means "no valid state record there".
+//@ spec rsT(st *stor.Stor, off uint64) int64
+//@ spec rsSchema(st *stor.Stor, off uint64) uint64
+//@ spec rsInfo(st *stor.Stor, off uint64) uint64
+//@ func readState(st, off) (offSchema, offInfo, t)
+//@   nosafety
+//@   maypanic
+//@   ensures! refs_below: t != 0 ==> offSchema < off && offInfo < off
+//@   defines t == rsT(st, off) && offSchema == rsSchema(st, off) && offInfo == rsInfo(st, off)
+
+// stateAsof: the state that is shown is a valid persisted state, its Off is the offset that state was
+// read from, and it is at or before the requested time unless the search reached the start of the store
+//@ func stateAsof(args) (r)
+//@   nosafety
+//@   maypanic
+//@   ghost last uint64 = off
+//@   ensures! consistent: r != nil && r.Asof != 0 && r.Off != 0 && r.Asof == rsT(args.store, r.Off)
+//@   ensures! at_or_before: r.Asof <= args.asof || last == 0
+//@   loop 0 invariant (t == 0 && stateOff == 0) || (t != 0 && stateOff != 0 && t == rsT(store, stateOff) && offSchema == rsSchema(store, stateOff) && offInfo == rsInfo(store, stateOff))
+//@   loop 0 decreases off
+// NextState/PrevState step to a valid persisted state strictly after / before the given offset
+// (PrevState(0) starts from the end of the store), or return nil when there is none
+//@ func NextState(store, off0) (r)
+//@   nosafety
+//@   maypanic
+//@   requires off0 < 18446744073709551615
+//@   ensures! valid_and_later: r != nil ==> r.Off > off0 && r.Asof != 0 && r.Asof == rsT(store, r.Off)
+//@   loop 0 invariant off >= off0
+//@ func PrevState(store, off0) (r)
+//@   nosafety
+//@   maypanic
+//@   ensures! valid_and_earlier: r != nil ==> r.Asof != 0 && r.Off != 0 && r.Asof == rsT(store, r.Off) && (off0 != 0 ==> r.Off < off0)
+//@   loop 0 invariant off0 != 0 ==> off <= off0
+//@   loop 0 decreases off
